@@ -251,7 +251,17 @@ func (self *linkedPairs) Pop() {
 func (self *linkedPairs) Unset(i int) {
 	if self.index != nil {
 		p := self.At(i)
-		delete(self.index, p.hash)
+		/* only drop the entry that refers to this pair, and hand it over to the
+		 * next pair with the same hash (a later duplicate of the key) if any */
+		if j, ok := self.index[p.hash]; ok && j == i {
+			delete(self.index, p.hash)
+			for k := i + 1; k < self.size; k++ {
+				if q := self.At(k); q.hash == p.hash {
+					self.index[p.hash] = k
+					break
+				}
+			}
+		}
 	}
 	self.set(i, Pair{})
 }
